@@ -18,8 +18,8 @@ const ID: &str = "C11";
 
 /// A context with variables and functions but without variable storage through the mutable trait:
 /// `set_value` is the trait's default.
-struct NoStore {
-    inner: HCtx,
+pub struct NoStore {
+    pub inner: HCtx,
 }
 impl Context for NoStore {
     type NumericTypes = DefaultNumericTypes;
